@@ -29,6 +29,8 @@ type Clause struct {
 	LoopOrd int
 	Prop    string
 	Always  bool // ensures that also applies to panic exits (none yet)
+	Slow    bool     // checked in the thorough tier only (solver needs more than the quick timeout)
+	Using   []string // tags of earlier ensures clauses that may be used as hypotheses ("by #a, #b")
 }
 
 func (c *Clause) propOr(d string) string {
@@ -490,6 +492,10 @@ func parseContractFile(data, file, pkgPath string) ([]*Contract, error) {
 						rest = strings.TrimSpace(rest[j+1:])
 					}
 				}
+				if strings.HasPrefix(rest, "slow ") {
+					cl.Slow = true
+					rest = strings.TrimSpace(rest[5:])
+				}
 				if strings.HasPrefix(rest, "#") {
 					j := strings.IndexByte(rest, ':')
 					if j < 0 {
@@ -505,6 +511,12 @@ func parseContractFile(data, file, pkgPath string) ([]*Contract, error) {
 					}
 					cl.Tag = strings.TrimSpace(rest[:j])
 					rest = strings.TrimSpace(rest[j+1:])
+				}
+				if j := strings.LastIndex(rest, " by #"); j >= 0 && word == "ensures" {
+					for _, u := range strings.Split(rest[j+4:], ",") {
+						cl.Using = append(cl.Using, strings.TrimPrefix(strings.TrimSpace(u), "#"))
+					}
+					rest = strings.TrimSpace(rest[:j])
 				}
 				e, err := ParseCExpr(rest)
 				if err != nil {
